@@ -295,7 +295,8 @@ pub enum ROp {
     CtxtAvail { c: usize },
     CtxtClone { c: usize },
     ArrInfo { a: usize },
-    /// via: 0 read_item, 1 get_item, 2 check_index, 3 cow read_item, 4 cow get_item
+    /// via: 0 read_item, 1 get_item, 2 check_index, 3 cow read_item, 4 cow get_item,
+    /// 5 Vec check_index, 6 cow(borrowed) check_index, 7 cow(owned) check_index
     ArrItem { a: usize, i: usize, via: u8 },
     /// via: 0 to_vec, 1 read_to_vec, 2 iter, 3 iter_res, 4 cow(borrowed) iter, 5 into_iter,
     /// 6 cow(owned) iter
@@ -983,6 +984,20 @@ fn step<'w>(sim: &mut Sim<'w>, op: &ROp, cov: &mut BTreeSet<String>) -> Result<S
                         .read_item(*i)
                         .map(|v| v.canon())
                         .map_err(|e| format!("{:?}", e)),
+                    // `CheckIndex` of the owned forms: a `Vec` of the elements and both Cow arms
+                    5 if m.length <= 100_000 => arr
+                        .to_vec()
+                        .check_index(*i)
+                        .map(|_| m.elem_or_empty(w, *i))
+                        .map_err(|e| format!("{:?}", e)),
+                    5 | 6 => ReadArrayCow::Borrowed(arr.clone())
+                        .check_index(*i)
+                        .map(|_| m.elem_or_empty(w, *i))
+                        .map_err(|e| format!("{:?}", e)),
+                    7 if m.length <= 100_000 => cow_owned(arr)
+                        .check_index(*i)
+                        .map(|_| m.elem_or_empty(w, *i))
+                        .map_err(|e| format!("{:?}", e)),
                     _ => cow_owned(arr)
                         .get_item(*i)
                         .map(|v| v.canon())
@@ -1465,7 +1480,7 @@ pub fn generate(seed: u64, run: u64, exact: bool) -> ReaderTrace {
             25 | 26 => ROp::ArrItem {
                 a: any,
                 i: gen_len(&mut rng, rem, ty.size()),
-                via: rng.below(5) as u8,
+                via: rng.below(8) as u8,
             },
             27 | 28 => ROp::ArrAll {
                 a: any,
